@@ -103,9 +103,18 @@ pub enum Op {
     Transfer { from: Target, to: Target, d: u64 },
     /// add `n` orders under fresh reserved ids (never re-used) and cancel each right away:
     /// leaves `n` stale tickets behind (reaches size thresholds random single ops never do)
-    Churn { n: u16, spec: OrderSpec },
+    Churn {
+        n: u32,
+        spec: OrderSpec,
+        /// ids from the ghost range (used by C07's twin so that the inserted churn does not shift
+        /// the ids of the history's own bulk operations)
+        #[serde(default)]
+        ghost: bool,
+    },
+    /// amend one resting order `n` times at the same price (alternating between two quantities)
+    AmendChurn { target: Target, n: u32 },
     /// add `n` orders under fresh reserved ids that stay resting
-    Burst { n: u16, spec: OrderSpec },
+    Burst { n: u32, spec: OrderSpec },
     /// (metamorphic twin of C07) add an extra order under a reserved id ...
     GhostAdd { spec: OrderSpec },
     /// ... and take it out again right away: 0 cancel, 1 price move, 2 price+quantity to another
@@ -128,6 +137,9 @@ pub struct Ghost {
     pub at: u16,
     pub spec: OrderSpec,
     pub via: u8,
+    /// 0: one ghost order; otherwise that many add+cancel pairs of extra orders (a `Churn`)
+    #[serde(default)]
+    pub pairs: u32,
 }
 
 #[derive(Clone, Copy, Debug, PartialEq, Eq, Hash, Serialize, Deserialize)]
@@ -162,6 +174,10 @@ pub struct History {
     /// oracle does not involve the aggregates: C04, C11); the aggregates may wrap
     #[serde(default)]
     pub wrap_ok: bool,
+    /// bound on the replenishment rounds a single match may need (match sizes are clamped to it);
+    /// 0 = the default of 120; rarely a power of two up to 2^17 (deep sweeps of one order)
+    #[serde(default)]
+    pub max_rounds: u32,
 }
 
 // ------------------------------------------------------------------------------------
@@ -185,6 +201,9 @@ pub struct HistCfg {
     pub w_bulk: u32,
     /// allow sums beyond 64 bits in boundary-profile histories (History::wrap_ok)
     pub wrap_ok: bool,
+    /// largest power of two for churn-type bulk sizes / for bursts of resting orders
+    pub churn_pow: u32,
+    pub burst_pow: u32,
     /// append a draining match at the end
     pub final_drain: bool,
     pub kind_weights: [u32; 7],
@@ -209,6 +228,8 @@ impl HistCfg {
             w_rebuild: 4,
             w_bulk: 1,
             wrap_ok: false,
+            churn_pow: 14,
+            burst_pow: 10,
             final_drain: false,
             kind_weights: [3, 4, 1, 2, 2, 2, 5],
             increasing_ts_share: 4,
@@ -313,22 +334,18 @@ pub fn op_strategy(cfg: HistCfg, profile: Profile) -> BoxedStrategy<Op> {
         cfg.w_rebuild,
         proptest::sample::select(ALL_REBUILDS.to_vec()).prop_map(Op::Rebuild).boxed(),
     ));
-    let bulk_n = prop_oneof![
-        4 => 1u16..=8,
-        2 => 60u16..=70,
-        2 => 126u16..=132,
-        2 => 250u16..=260,
-        1 => 1u16..=300,
-        1 => 1020u16..=1030,
-    ];
+    let bulk_n = gen::size_class(cfg.churn_pow);
+    let burst_n = gen::size_class(cfg.burst_pow);
     v.push((
-        cfg.w_bulk * 3,
-        (target(), target(), 1u64..=6).prop_map(|(from, to, d)| Op::Transfer { from, to, d }).boxed(),
+        cfg.w_bulk,
+        (target(), gen::size_class(cfg.churn_pow))
+            .prop_map(|(target, n)| Op::AmendChurn { target, n })
+            .boxed(),
     ));
     v.push((
         cfg.w_bulk,
-        (any::<bool>(), bulk_n, gen::order_spec(OrderGenCfg { profile: Profile::Small, zero_display: cfg.zeros, zero_amount: cfg.zeros, kind_weights: cfg.kind_weights }))
-            .prop_map(|(churn, n, spec)| if churn { Op::Churn { n, spec } } else { Op::Burst { n: n.min(80), spec } })
+        (any::<bool>(), bulk_n, burst_n, gen::order_spec(OrderGenCfg { profile: Profile::Small, zero_display: cfg.zeros, zero_amount: cfg.zeros, kind_weights: cfg.kind_weights }))
+            .prop_map(|(churn, n, bn, spec)| if churn { Op::Churn { n, spec, ghost: false } } else { Op::Burst { n: bn, spec } })
             .boxed(),
     ));
     let v: Vec<_> = v.into_iter().filter(|(w, _)| *w > 0).collect();
@@ -365,13 +382,13 @@ pub fn history(cfg: HistCfg) -> BoxedStrategy<History> {
                 1 => (u64::MAX - 40)..=u64::MAX,
                 1 => prop_oneof![Just(9_999_999_999_999_999_990u64), Just(10_000_000_000_000_000_000u64), Just(99_990u64), Just(999_999_999_990u64)],
             ]
-            .prop_flat_map(|g| any::<bool>().prop_map(move |w| (g, w))),
+            .prop_flat_map(|g| (any::<bool>(), prop_oneof![40 => Just(0u32), 3 => Just(1_000u32), 2 => Just(6_000u32), 1 => 65_000u32..=70_000, 1 => 130_000u32..=140_000]).prop_map(move |(w, r)| (g, w, r))),
         )
-            .prop_map(move |(price, pool, mut ops, hold, (gen_start, wrap))| {
+            .prop_map(move |(price, pool, mut ops, hold, (gen_start, wrap, max_rounds))| {
                 if cfg.final_drain {
                     ops.push(Op::Match { size: MatchSize::AllPlus1 });
                 }
-                History { zeros: cfg.zeros, price, profile, ts_mode, pool, ops, ghost: None, hold, gen_start, wrap_ok: cfg.wrap_ok && profile == Profile::Boundary && wrap }
+                History { zeros: cfg.zeros, price, profile, ts_mode, pool, ops, ghost: None, hold, gen_start, wrap_ok: cfg.wrap_ok && profile == Profile::Boundary && wrap, max_rounds }
             })
     })
     .boxed()
@@ -466,6 +483,7 @@ pub struct Facts {
     pub silent_leaves: u64,
     pub silent_replenish: u64,
     pub tranche_ambiguous: u64,
+    pub priority_checks_skipped_deep_level: u64,
 }
 
 #[derive(Clone, Debug)]
@@ -581,6 +599,11 @@ pub fn apply_concrete(level: &PriceLevel, gen: &UuidGenerator, c: &Concrete, bud
 }
 
 pub struct Interp {
+    /// position of each resting id in `model`
+    pub index: HashMap<IdKey, usize>,
+    pub ghost_counter: u64,
+    pub no_ts_bump: bool,
+    pub max_rounds: u64,
     pub wrap_ok: bool,
     /// handles kept alive on behalf of the caller (History::hold)
     pub hold: bool,
@@ -640,6 +663,10 @@ fn listing_of(level: &PriceLevel) -> Vec<Order> {
 impl Interp {
     pub fn new(h: &History) -> Self {
         Interp {
+            index: HashMap::new(),
+            ghost_counter: 0,
+            no_ts_bump: false,
+            max_rounds: if h.max_rounds == 0 { 120 } else { h.max_rounds as u64 },
             wrap_ok: h.wrap_ok,
             hold: h.hold,
             held: Vec::new(),
@@ -703,8 +730,23 @@ impl Interp {
     }
 
     fn find(&self, id: OrderId) -> Option<usize> {
-        let k = id_key(id);
-        self.model.iter().position(|e| id_key(e.id) == k)
+        self.index.get(&id_key(id)).copied()
+    }
+
+    fn model_push(&mut self, e: Entry) {
+        self.index.insert(id_key(e.id), self.model.len());
+        self.model.push(e);
+    }
+
+    /// O(1) removal (the last entry takes the freed slot)
+    fn model_remove(&mut self, i: usize) -> Entry {
+        let e = self.model.swap_remove(i);
+        self.index.remove(&id_key(e.id));
+        if i < self.model.len() {
+            let k = id_key(self.model[i].id);
+            self.index.insert(k, i);
+        }
+        e
     }
 
     fn resolve(&self, t: Target) -> OrderId {
@@ -853,7 +895,7 @@ impl Interp {
                     match sv {
                         None => {
                             self.facts.silent_leaves += 1;
-                            self.model.remove(i);
+                            self.model_remove(i);
                             continue;
                         }
                         Some(n) => {
@@ -902,7 +944,7 @@ impl Interp {
                     i += 1;
                 }
                 None => {
-                    self.model.remove(i);
+                    self.model_remove(i);
                 }
             }
         }
@@ -911,7 +953,7 @@ impl Interp {
             if !known.contains(&id_key(o.id())) {
                 problems.push(format!("the level lists {} which should not rest", brief(o)));
                 self.clock += 1;
-                self.model.push(Entry {
+                self.model_push(Entry {
                     id: o.id(),
                     cur: *o,
                     supplied: o.visible_quantity() as i128 + o.hidden_quantity() as i128,
@@ -1022,19 +1064,108 @@ impl Interp {
                 }
                 OpResult::Bulk
             }
-            Op::Churn { n, spec } => {
+            Op::Churn { n, spec, ghost } => {
+                let mut sp = *spec;
+                sp.display = sp.display.max(1).min(5);
+                sp.hidden = sp.hidden.min(5);
+                if self.ts_mode == TsMode::Increasing {
+                    // (churned orders never rest: they do not take part in the increasing-timestamp
+                    // numbering, so inserting a churn does not shift the timestamps of later adds)
+                    sp.ts = 998;
+                }
+                let per_pair = sp.display as u128 + if sp.kind.has_hidden() { sp.hidden as u128 } else { 0 };
                 for _ in 0..*n {
                     if self.dead {
                         break;
                     }
-                    self.bulk_counter += 1;
-                    let id = bulk_id(self.bulk_counter);
-                    let mut sp = *spec;
-                    sp.display = sp.display.max(1).min(5);
-                    sp.hidden = sp.hidden.min(5);
-                    if matches!(self.add_with_id(id, sp), OpResult::Added(_)) {
-                        let _ = self.do_remove(OrderUpdate::Cancel { order_id: id }, id);
+                    if !self.wrap_ok && self.headroom() < per_pair as u64 {
+                        break;
                     }
+                    let id = if *ghost {
+                        self.ghost_counter += 1;
+                        OrderId::from_u64(0x6805_7100_0000_0000 + self.ghost_counter)
+                    } else {
+                        self.bulk_counter += 1;
+                        bulk_id(self.bulk_counter)
+                    };
+                    // direct calls (the per-operation fingerprinting of do_remove would make large
+                    // churns quadratic); the cancel must hand back exactly the order just added
+                    let order = sp.build(id, self.price);
+                    self.concrete.push(Concrete::Add(order));
+                    self.concrete.push(Concrete::Update(OrderUpdate::Cancel { order_id: id }));
+                    let level = &self.level;
+                    let r = catch(|| {
+                        let h = level.add_order(order);
+                        (h, level.update_order(OrderUpdate::Cancel { order_id: id }))
+                    });
+                    match r {
+                        Ok((h, Ok(Some(back)))) if *back == order => {
+                            if self.hold && self.held.len() < 4096 {
+                                self.held.push(h);
+                                self.held.push(back);
+                            }
+                        }
+                        Ok((_, other)) => {
+                            let shown = format!("{:?}", other.as_ref().map(|o| o.as_ref().map(|a| brief(a))).map_err(|e| e.to_string()));
+                            self.violate(Oracle::Update, format!("cancel of the order just added ({}) returned {}", brief(&order), shown));
+                        }
+                        Err(m) => {
+                            self.violate(Oracle::Panic, format!("add + cancel panicked: {m}"));
+                            self.dead = true;
+                        }
+                    }
+                    self.supplied_total += per_pair;
+                    self.exp_added += 1;
+                    self.exp_removed += 1;
+                    self.pushes += 1;
+                    self.facts.adds += 1;
+                    self.facts.removals += 1;
+                    self.clock += 1;
+                }
+                OpResult::Bulk
+            }
+            Op::AmendChurn { target, n } => {
+                let id = self.resolve(*target);
+                if let Some(i0) = self.find(id) {
+                    // alternate between the current displayed quantity and one unit more (as far as
+                    // the 64-bit headroom allows); direct calls, checked against the amendment rule
+                    let q0 = self.model[i0].cur.visible_quantity();
+                    for k in 0..*n {
+                        if self.dead {
+                            break;
+                        }
+                        let i = match self.find(id) {
+                            Some(i) => i,
+                            None => break,
+                        };
+                        let q = if k % 2 == 0 { self.clamp_amend(id, q0.saturating_add(1)) } else { self.clamp_amend(id, q0) };
+                        let u = OrderUpdate::UpdateQuantity { order_id: id, new_quantity: q };
+                        let r = match self.call_update(u) {
+                            Some(r) => r,
+                            None => break,
+                        };
+                        let cur = self.model[i].cur;
+                        match &r {
+                            Ok(Some(o)) if amend_ok(&cur, q, o) => {
+                                let delta = o.visible_quantity() as i128 - cur.visible_quantity() as i128;
+                                if delta > 0 {
+                                    self.supplied_total += delta as u128;
+                                }
+                                let m = &mut self.model[i];
+                                m.supplied += delta;
+                                m.cur = **o;
+                            }
+                            other => {
+                                let shown = format!("{:?}", other.as_ref().map(|o| o.as_ref().map(|a| brief(a))));
+                                self.violate(Oracle::Update, format!("{} on resting {} returned {}", u, brief(&cur), shown));
+                                break;
+                            }
+                        }
+                        self.facts.amends += 1;
+                        self.pushes += 1;
+                    }
+                    self.stale_possible.insert(id);
+                    self.event_since_match = true;
                 }
                 OpResult::Bulk
             }
@@ -1136,7 +1267,9 @@ impl Interp {
             self.facts.skipped_adds += 1;
             return OpResult::Skipped;
         }
-        if self.ts_mode == TsMode::Increasing && !ghost {
+        if self.ts_mode == TsMode::Increasing && self.no_ts_bump {
+            spec.ts = 998;
+        } else if self.ts_mode == TsMode::Increasing && !ghost {
             self.add_counter += 1;
             spec.ts = 1_000 + self.add_counter;
         }
@@ -1158,7 +1291,7 @@ impl Interp {
         self.clock += 1;
         let total = order.visible_quantity() as u128 + order.hidden_quantity() as u128;
         self.supplied_total += total;
-        self.model.push(Entry {
+        self.model_push(Entry {
             id,
             cur: order,
             supplied: total as i128,
@@ -1210,13 +1343,13 @@ impl Interp {
             MatchSize::Huge => u64::MAX,
         };
         // keep the number of replenishment rounds a correct sweep needs bounded (DESIGN §C06)
-        const MAX_ROUNDS: u64 = 120;
+        let max_rounds: u64 = self.max_rounds;
         let n = self.model.len() as u64;
-        if self.rounds_for(s) > MAX_ROUNDS + 2 * n {
+        if self.rounds_for(s) > max_rounds + 2 * n {
             let (mut lo, mut hi) = (0u64, s);
             while lo < hi {
                 let mid = lo + (hi - lo) / 2 + ((hi - lo) & 1);
-                if self.rounds_for(mid) <= MAX_ROUNDS + 2 * n {
+                if self.rounds_for(mid) <= max_rounds + 2 * n {
                     lo = mid;
                 } else {
                     hi = mid - 1;
@@ -1289,8 +1422,10 @@ impl Interp {
         // ---- walk the transactions through the model
         let mut remaining = s;
         let mut traded: Vec<OrderId> = Vec::new();
+        let mut traded_set: HashSet<IdKey> = HashSet::new();
         let mut per_maker: HashMap<OrderId, u32> = HashMap::new();
         let mut replenish_in_call = 0u32;
+        let mut pairs_done = 0usize;
         for t in &txs {
             if t.quantity == 0 {
                 self.violate(Oracle::Account, "transaction with quantity 0".into());
@@ -1316,7 +1451,7 @@ impl Interp {
                 }
             };
             *per_maker.entry(t.maker_order_id).or_insert(0) += 1;
-            if !traded.contains(&t.maker_order_id) {
+            if traded_set.insert(id_key(t.maker_order_id)) {
                 traded.push(t.maker_order_id);
             }
             // a display-0 order may have been replenished by a visit that produced no transaction
@@ -1344,7 +1479,14 @@ impl Interp {
             // ---- C04: nobody with displayed quantity and an earlier rank may be waiting
             let m_rank = self.model[idx].rank;
             let m_stale = self.stale_possible.contains(&cur.id());
-            for j in 0..self.model.len() {
+            // (the pair check is linear in the number of resting orders: on very deep levels it
+            // is evaluated for the first transactions of a match only)
+            let pair_limit = if self.model.len() > 400 { 24 } else { usize::MAX };
+            if self.model.len() > 400 && pairs_done >= pair_limit {
+                self.facts.priority_checks_skipped_deep_level += 1;
+            }
+            pairs_done += 1;
+            for j in 0..(if pairs_done - 1 < pair_limit { self.model.len() } else { 0 }) {
                 if j == idx {
                     continue;
                 }
@@ -1403,7 +1545,7 @@ impl Interp {
             self.facts.txs += 1;
             match r.next {
                 None => {
-                    self.model.remove(idx);
+                    self.model_remove(idx);
                 }
                 Some(nx) => {
                     let e = &mut self.model[idx];
@@ -1548,7 +1690,7 @@ impl Interp {
                 }
                 self.facts.removals += 1;
                 self.stale_possible.insert(id);
-                self.model.remove(i);
+                self.model_remove(i);
             }
             None => {
                 if !matches!(r, Ok(None)) {
